@@ -120,11 +120,11 @@ func (r *rlocker) Unlock() { (*RWMutex)(r).RUnlock() }
 
 // Types without scheduling relevance for the controlled packages are aliases.
 type (
-	Once      = sync.Once
-	Pool      = sync.Pool
-	Map       = sync.Map
-	Locker    = sync.Locker
-	Cond      = sync.Cond
+	Once   = sync.Once
+	Pool   = sync.Pool
+	Map    = sync.Map
+	Locker = sync.Locker
+	Cond   = sync.Cond
 )
 
 func NewCond(l Locker) *Cond { return sync.NewCond(l) }
